@@ -41,6 +41,8 @@ fn main() {
                 Err(e) => println!("{}\n  => compile {}", src, e),
             }
         }
+        return;
+    }
     if facet == "--c12-child" {
         // isolated executor of the C12 facet: one context per input line
         std::panic::set_hook(Box::new(|_| {}));
